@@ -75,6 +75,9 @@ type Ctx struct {
 	T        *Tape
 	Stats    *Stats
 	Verbose  bool // render human-readable lines
+	// Truncated: a discrete-event loop of this run hit its event budget with events still queued. Oracles that
+	// run after the loop would mistake undelivered packets for losses; their violations are dropped.
+	Truncated bool
 	Lines    []string
 	Viol     []Violation
 	FPs      []uint64 // non-trivial state fingerprints reached in this run
@@ -115,6 +118,10 @@ func (c *Ctx) Logf(format string, args ...interface{}) {
 
 // Violate records a violation (non-fatal).
 func (c *Ctx) Violate(oracle, signature, format string, args ...interface{}) {
+	if c.Truncated && oracle != "panic" {
+		c.Probe("violation-dropped-after-truncated-run")
+		return
+	}
 	msg := fmt.Sprintf(format, args...)
 	if len(msg) > 600 {
 		msg = msg[:600] + "…"
